@@ -56,7 +56,7 @@ def roles(n, tier):
     """All assignments of roles to n tasks: each task is L(oad) q, U(nload) q or both."""
     opts = [("L", 1), ("U", 1), ("L", 2), ("U", 2), ("LU", 1)]
     if tier == "thorough":
-        opts += [("L", 3), ("U", 3)]
+        opts += [("L", 3), ("U", 3), ("L", 0)]
     return list(itertools.product(opts, repeat=n))
 
 
@@ -70,7 +70,7 @@ def buffer_variants(tier):
                 if i is None and f is None:
                     continue
                 for lo in (None, 0):
-                    for up in (None, 3):
+                    for up in ((None, 3) if tier == "quick" else (None, 0, 3)):
                         kw = {}
                         if i is not None:
                             kw["initial_level"] = i
